@@ -434,6 +434,59 @@ theorem f09_2br_repaired :
     runRe cfg [w] w.full = .lines (expectedLines cfg [w] w.full) := by
   decide
 
+/-- the registry is keyed by the WHOLE host name: an entry found for `h` is an entry registered under
+    exactly `h`, and there is one iff some annotated word's expansion contains exactly `h` -- a name
+    that is a prefix (or an extension) of a registered name is a different host -/
+theorem rcmd_lookup_exact (cfg : Cfg) (words : List Word) (reg : List Entry) (h : Str)
+    (hrun : processWords cfg (words.map reExpand) [] = some reg) :
+    (∀ e, lookup reg h = some e → e.host = h) ∧
+    ((lookup reg h).isSome = true ↔ ∃ w ∈ words, annotated w = true ∧ h ∈ w.full) := by
+  constructor
+  · intro e he
+    unfold lookup at he
+    have := List.find?_some he
+    simpa using this
+  · have hf := first_word_wins_reexpand cfg words reg h hrun
+    have hiff : (lookup reg h).isSome = (firstNaming words h).isSome := by
+      have := congrArg Option.isSome hf
+      simpa using this
+    rw [hiff]
+    unfold firstNaming
+    constructor
+    · intro hs
+      cases hfind : words.find? (fun w => annotated w && w.full.contains h) with
+      | none => rw [hfind] at hs; cases hs
+      | some w =>
+        have hm := List.mem_of_find?_eq_some hfind
+        have hp := List.find?_some hfind
+        simp only [Bool.and_eq_true, List.contains_eq_mem, decide_eq_true_eq] at hp
+        exact ⟨w, hm, hp.1, hp.2⟩
+    · rintro ⟨w, hw, ha, hh⟩
+      cases hfind : words.find? (fun w => annotated w && w.full.contains h) with
+      | none =>
+        have := List.find?_eq_none.mp hfind w hw
+        simp [ha, hh] at this
+      | some w' =>
+        have hp := List.find?_some hfind
+        simp only [Bool.and_eq_true] at hp
+        -- an annotated word parses
+        simp only
+        unfold annotated at hp
+        cases hpar : parse w'.text with
+        | none => rw [hpar] at hp; simp at hp
+        | some p => rfl
+
+/-- n1 and n10 (one name a string prefix of the other) are different hosts: `alice@n1,n10` contacts
+    n10 as the default user, `alice@n10,bob@n1` keeps both registrations -/
+example :
+    let cfg : Cfg := ⟨["exec".toList], ["exec".toList], none, none, none, "me".toList⟩
+    let w (t : String) (hs : List String) : Word := ⟨t.toList, hs.map String.toList, hs.map String.toList⟩
+    (match runRe cfg [w "alice@n1" ["n1"], w "n10" ["n10"]] ["n1".toList, "n10".toList] with
+     | .lines ls => ls.map (fun l => String.ofList l.user) | .fatal => []) = ["alice", "me"] ∧
+    (match runRe cfg [w "alice@n10" ["n10"], w "bob@n1" ["n1"]] ["n10".toList, "n1".toList] with
+     | .lines ls => ls.map (fun l => String.ofList l.user) | .fatal => []) = ["alice", "bob"] := by
+  decide
+
 /-- F09-2BR witness: a two-bracket word is registered under its first-level names, so the final
     hosts are not found and fall back to the defaults although the word names them
     (`-w u@foo[1-2]-[0-1]`: foo1-0 is contacted as the local user) -/
@@ -466,6 +519,13 @@ theorem wire_request_exact (port : Option Nat) (luser ruser cmd : List Char)
   intro t ht
   rw [h] at ht
   exact (Option.some.inj ht).symm
+
+/-- nothing is clamped: the request is as long as its four fields plus their terminators, for
+    every command length -/
+theorem request_length (port : Option Nat) (luser ruser cmd : List Char) :
+    (xrcmdWrites port luser ruser cmd).flatten.length =
+      (portField port).length + luser.length + ruser.length + cmd.length + 4 := by
+  cases port <;> simp [xrcmdWrites, portField] <;> omega
 
 theorem joinCmd_nul_free (argv : List Str) (h : ∀ a ∈ argv, nul ∉ a) : nul ∉ joinCmd argv := by
   induction argv with
